@@ -213,6 +213,56 @@ class FloodSuite(cc.ChanSuite):
 
 
 
+class LatencySuite(cc.ChanSuite):
+    """A transport that needs `latency` to hand data over and still delivers what arrives exactly at the end of its
+    wait (like select()): an operation whose condition is fulfilled by what it has consumed returns -- it never raises
+    TimeoutError with the data that satisfied it in hand (and lost).  The Coq transport has no latency: oracle only."""
+    name = "latency"
+    model_fn = None
+
+    def gen(self, tier, rng):
+        for i in range(3000 if tier == "thorough" else 500):
+            lat = rng.choice([1, 2, 8])
+            T = rng.choice([64, 100, 512, 1024])
+            kind = rng.choice(["read", "readline", "expect", "rup", "send"])
+            data = {"read": b"abcdef", "readline": b"abc\r\n", "expect": b"xx~", "rup": b"out> ", "send": b"abc d"}[kind]
+            cuts = sorted(rng.sample(range(1, len(data)), rng.randint(0, 2)))
+            parts = [data[a:b] for a, b in zip([0] + cuts, cuts + [len(data)])]
+            last_t = rng.choice([T, T, T - lat // 2, T - 1, T - lat, T // 2])
+            times = sorted(rng.randint(0, last_t) for _ in parts[:-1]) + [last_t]
+            pieces = [[t, p.hex()] for t, p in zip(times, parts)]
+            op = {"read": ["read", len(data), T], "readline": ["readline", T, "0d0a"], "expect": ["expect", [{"lit": "7e"}], T],
+                  "rup": ["rup", {"lit": "3e20"}, T], "send": ["send", data.hex(), True, T]}[kind]
+            yield {"pieces": pieces, "accept": [], "ops": [op], "latency": lat, "want": data.hex()}
+
+    def oracle(self, case, obs):
+        fails = []
+        o, ob = case["ops"][0], obs[0][0]
+        r, now = ob[0], ob[1]
+        if r[0] == 8:
+            r = r[2]
+        consumed = obs[2][0]
+        want = bytes.fromhex(case["want"])
+        if r == [2] and consumed >= len(want):
+            fails.append(f"{o[0]} raised TimeoutError at {now} although the {consumed} bytes it had consumed fulfil its condition "
+                         f"({want!r}, last piece at {case['pieces'][-1][0]}, transport latency {case['latency']}): the data is lost")
+        if r[0] in (0, 1, 7) and consumed < len(want):
+            fails.append(f"{o[0]} returned {r!r} after {consumed} of {len(want)} bytes")
+        return fails
+
+    def nontrivial(self, case, obs):
+        return True
+
+    def klass(self, case, obs):
+        r = obs[0][0][0]
+        if r[0] == 8:
+            r = r[2]
+        return case["ops"][0][0] + {0: "/ok", 1: "/ok", 7: "/ok", 2: "/timeout", 3: "/blocked"}.get(r[0], "/other")
+
+    def finding_key(self, case, obs, failure):
+        return None
+
+
 # ------------------------------------------------------------------ SubprocessChannelIO.read: the select loop
 import tbot.machine.channel.subprocess as spmod   # noqa: E402
 import tbot.error as terr                          # noqa: E402
@@ -342,4 +392,4 @@ class SubIOSuite(_Suite):
             yield {"timeout": T, "now": now, "ready": None if ready is None else now + ready, "dies": None if dies is None else now + dies}
 
 
-SUITES = [TimeSuite(), FloodSuite(), SubIOSuite()]
+SUITES = [TimeSuite(), FloodSuite(), LatencySuite(), SubIOSuite()]
